@@ -40,7 +40,7 @@ def gen_script(rng, maxsel=4, maxwork=10, allow_reinit=True):
             steps.append(l3)
         elif r < 88:
             # a failed selection: the one in force must stay in force
-            steps.append(rng.choice(['EPSET UNSUPPORTED', 'EBSET bad']))
+            steps.append(rng.choice(['EPSET UNSUPPORTED', 'EBSET bad'] + ([] if l2 else ['TWIST bad'])))     # a twist type that is neither: only while no pairing layer is in force
             steps.append('GETCODE')
             steps.append('CLRERR')
         elif allow_reinit:
@@ -177,7 +177,13 @@ def check(plan, transcript, config, opts, refs=None):
             out.keys.add(('pair', a, b))
         out.fault('context-switch', sum(1 for _ in sc[i]))
         out.fault('selection', len(sels))
-        out.fault('failed-selection', sum(1 for s in sc[i] if s in ('EPSET UNSUPPORTED', 'EBSET bad')))
+        out.fault('failed-selection', sum(1 for s in sc[i] if s in ('EPSET UNSUPPORTED', 'EBSET bad', 'TWIST bad')))
+        for ln in mine:
+            # invariant of every completed step (executor side): the handler chain is what it was before the step
+            if ln.startswith('CHAIN '):
+                out.violate('C19', 'C19|ctxsim|handler-chain|%s' % ln.split()[1],
+                            'context %d: the handler chain of the context was not restored when the step %s returned' % (i, ln.split()[1]))
+                break
         out.fault('reinit', sels.count('REINIT'))
         out.fault('context-storage-prefilled', sum(1 for ln in plan.split('\n') if ln.startswith('CTXFILL %d ' % i)))
         if solo is not None:
